@@ -440,6 +440,13 @@ func pa4(c *Ctx, p *Prog, rule string, scope paScope) int {
 			if ce, ok := coloursLoad(lf); ok {
 				cols = append(cols, ce)
 			}
+			// the generator's own colour sets (self = Colors[STM], them = Colors[STM.Flip()], checked by C01.R2)
+			if isGenField(lf, "self") {
+				cols = append(cols, colourExpr{"STM", false})
+			}
+			if isGenField(lf, "them") {
+				cols = append(cols, colourExpr{"STM", true})
+			}
 		}
 		if hasPawn && len(cols) == 1 {
 			n++
@@ -448,6 +455,11 @@ func pa4(c *Ctx, p *Prog, rule string, scope paScope) int {
 			} else {
 				c.Fail(rule, key+"#reverse", ac.Call.Pos(), "pawns of colour %v that attack the square(s) are looked up with the capture pattern of colour %v; it must be the opposite colour's pattern", cols[0], col)
 			}
+			continue
+		}
+		if hasPawn && len(cols) == 0 {
+			n++
+			c.Undec(rule, key+"#reverse", ac.Call.Pos(), "the capture pattern is intersected with the pawns but with no colour set at this site: pawns of both colours count as attackers unless the colour is applied elsewhere")
 			continue
 		}
 		// forward use: argument is Colors[c'] & Pieces[Pawn] (possibly through bit loops)
